@@ -7,7 +7,7 @@ from harness import core, gen, common
 ID = 'C01'
 LEAN_TARGETS = ['Props.C01']
 # Tie A: equivalence theorems generated from the current source by translate/py2lean.py (checked on every run)
-TIE_A = ['from_Cl_eq_model'] + ['sig_%s_documented' % m for m in ('g2', 'g3', 'g4', 'g3_1', 'g2c', 'g3c', 'pga', 'pga2d', 'gac', 'dpga', 'dg3c')] + ['cre_eq', 'crs_eq', 'gmt_element_eq']
+TIE_A = ['from_Cl_eq_model'] + ['sig_%s_documented' % m for m in ('g2', 'g3', 'g4', 'g3_1', 'g2c', 'g3c', 'pga', 'pga2d', 'gac', 'dpga', 'dg3c')] + ['cre_eq', 'crs_eq', 'gmt_element_eq'] + ['construct_gmt_eq']
 OBLIGATIONS = [
     'C01.reorderSwaps_spec', 'C01.metricLoop_spec', 'C01.bladeSign_eq_spec', 'C01.sign_cocycle',
     'C01.gmul_assoc', 'C01.one_gmul', 'C01.gmul_one', 'C01.left_distrib', 'C01.right_distrib',
